@@ -139,6 +139,13 @@ def under(mask_org, owner):
         isinstance(mask_org[2], tuple) and isinstance(owner[2], tuple) and len(mask_org[2]) > len(owner[2]) and mask_org[2][:len(owner[2])] == owner[2]
 
 
+def same_storage(b, storage_self_org, raw_self_org):
+    """the raw accessor's receiver is the `data.inner` of the Storage the checked call was made on"""
+    r1_ = {r[:2] + (tuple(r[2][:1]) if r[0] == "param" and r[2] and r[2][0] in ("data", "entities") else tuple(r[2][:0]),) if r[0] == "param" else r for r in b.roots(storage_self_org)}
+    r2_ = {r[:2] + ((),) if r[0] == "param" else r for r in b.roots(raw_self_org)}
+    return bool({x[:2] for x in r1_ if x[0] == "param"} & {x[:2] for x in r2_ if x[0] == "param"})
+
+
 def index_key(b, org):
     x = entity_of_index(b, org)
     return ("entity", x) if x is not None else org
@@ -291,6 +298,18 @@ def r2(ctx, facts, item_fields):
                        any(index_key(b, b.operand_origin(a)) == ik for a in it["args"][1:2]) and ibb != bb]
                 if ins and bb not in b.reachable(0, stop=ins):
                     how = "(c) dominated by an insertion of the same id"
+            # (c') on the Ok edge of the CHECKED insert of the same entity: Storage::insert(e, v) answers Ok only after it put `e.id()` into the
+            # mask or found it there (benign C03-p1: get_mut_or_default inserts the default, then takes the slot without asking the mask again)
+            if how is None and ik[0] == "entity":
+                okedges = set()
+                for ibb, it in b.calls():
+                    if it["callee"].get("path") == "storage::Storage::<'e, T, D>::insert" and len(it["args"]) > 1 and \
+                            b.arg_origin(ibb, 1) == ik[1] and same_storage(b, b.arg_origin(ibb, 0), so):
+                        for ve in b.variant_edges(lambda o, ibb=ibb: o == ("call", ibb, ())):
+                            if "Ok" in ve["edges"]:
+                                okedges.add(ve["edges"]["Ok"])
+                if okedges and bb not in b.reachable(0, removed=okedges):
+                    how = "(c') on the Ok edge of Storage::insert of the same entity into the same storage"
             ctx.ob("C04-R2", "%s -> %s" % (b.path, t["callee"]["name"]), how is not None, b.loc(bb),
                    how or "raw accessor called from a safe function for an index that is not known to be in the mask (none of the accepted idioms a/b/c applies)")
     ctx.floor("C04-R2", "raw read accessor sites in safe functions", n, 9)
